@@ -193,3 +193,15 @@ Print Assumptions wf_fsb_is_sufficient.
 Theorem no_tsb_is_sufficient : forall fs, no_tsb fs = true -> no_ts_rewrite fs.
 Proof. exact no_tsb_sound. Qed.
 Print Assumptions no_tsb_is_sufficient.
+
+(* the equation for bare specifiers is FALSE of the faithful model without a
+   further hypothesis: Node's package scope stops at node_modules (finding D12,
+   replayed by the harness witness "package-scope-stops-at-node-modules") *)
+Theorem package_resolve_eq_refuted_scope_boundary :
+  wf_fsb w_scope_fs = true /\ no_tsb w_scope_fs = true
+  /\ resolve (fun _ => false) w_scope_fs KRequire [] (pw_ ["node_modules"; "nopkg"]) (s_ "rootpkg")
+     = RFile (pw_ ["own.js"])
+  /\ require_resolve (fun _ => false) w_scope_fs [] (pw_ ["node_modules"; "nopkg"]) (s_ "rootpkg")
+     = NFile (pw_ ["node_modules"; "rootpkg"; "copy.js"]).
+Proof. exact refuted_scope_boundary. Qed.
+Print Assumptions package_resolve_eq_refuted_scope_boundary.
